@@ -29,6 +29,7 @@ type vfSRScript struct {
 		W    uint16 `json:"w"`
 		Ts   int64  `json:"ts"`
 		Len  int    `json:"len"`
+		Pad  int    `json:"pad"` // rtp: > 0: padding bit with PaddingSize pad (appended at marshal time, not part of the payload); -1: padding bit alone
 		T    int64  `json:"t"`
 		K    int    `json:"k"`
 		Rate uint32 `json:"rate"`
@@ -155,11 +156,17 @@ func vfRunSR(t *testing.T, sc *vfSRScript, out *vfWriter) {
 					Version: 2, SSRC: st.S, SequenceNumber: st.W + uint16(i), //nolint:gosec // wraps as on the wire
 					Timestamp: sc.wireTs(st.Ts),
 				}
+				if st.Pad != 0 { // the octet count of a sender report is about the payload octets handed to Write
+					hdr.Padding = true
+					if st.Pad > 0 {
+						hdr.PaddingSize = byte(st.Pad) //nolint:gosec // < 256
+					}
+				}
 				if n, err := b.writer.Write(hdr, payload[:st.Len], interceptor.Attributes{}); err != nil || n != st.Len {
 					t.Fatalf("VERIF-INFRA write: n=%d err=%v", n, err)
 				}
 			}
-			out.Emit(vfM{"a": "rtp", "s": st.S, "w": st.W, "ts": st.Ts, "len": st.Len, "t": st.T, "k": st.K})
+			out.Emit(vfM{"a": "rtp", "s": st.S, "w": st.W, "ts": st.Ts, "len": st.Len, "t": st.T, "k": st.K, "pad": st.Pad})
 		case "report":
 			mu.Lock()
 			written = nil
